@@ -263,7 +263,6 @@ VARIANTS = {
 # rules of other properties that share code with a property (run in the thorough tier)
 NEIGHBOURS = {
     "C06": [("c03", "C03.R2")],
-    "C10": [("c04", "C04.R2")],
     "C13": [("c08", "C08.R1")],
     "C17": [("c11", "C11.R1")],
     "C18": [("c17", "C17.R2")],
